@@ -248,7 +248,11 @@ func infeasibleLeaf(gs []ir.Guard, loop *ir.Loop) bool {
 }
 
 // batchAccumulators checks the fold of the members' blocks in one parser's ParseMsg.
-func (c *Ctx) batchAccumulators(fnName string, identity map[int][]int64) {
+func (c *Ctx) batchAccumulators(fnName string, identity map[int][]int64, rule ...string) {
+	rp := "C31b"
+	if len(rule) > 0 {
+		rp = rule[0]
+	}
 	fn := c.Fn(fnName)
 	comb := c.Fn(cl + "CompareRequestedBlockInBatch")
 	if fn == nil || comb == nil {
@@ -257,24 +261,24 @@ func (c *Ctx) batchAccumulators(fnName string, identity map[int][]int64) {
 	short := strings.TrimPrefix(fnName, cl)
 	sites := c.CallsIn(fn, comb, false)
 	if len(sites) != 1 {
-		c.Undecided("C31b: expected exactly one CompareRequestedBlockInBatch call in %s, found %d", fnName, len(sites))
+		c.Undecided(rp+": expected exactly one CompareRequestedBlockInBatch call in %s, found %d", fnName, len(sites))
 		return
 	}
 	call, ok := sites[0].Instr.(*ssa.Call)
 	if !ok {
-		c.Undecided("C31b: combiner call in %s is not a plain call", fnName)
+		c.Undecided(rp+": combiner call in %s is not a plain call", fnName)
 		return
 	}
 	loop := innermostLoop(fn, call.Block())
 	if loop == nil {
-		c.Fail("C31b/"+short+"/combiner-in-member-loop", c.P.InstrPos(call), "the pairwise combiner is not called inside the loop over the batch members")
+		c.Fail(rp+"/"+short+"/combiner-in-member-loop", c.P.InstrPos(call), "the pairwise combiner is not called inside the loop over the batch members")
 		return
 	}
 	member := call.Call.Args[2]
 	if !strings.HasPrefix(ir.Desc(member), "call(protocol/parser.ParsedInput.GetBlock)(") {
-		c.Fail("C31b/"+short+"/combiner-gets-member-block", c.P.InstrPos(call), "third argument of the combiner is not this member's parsed block: "+trunc(ir.Desc(member), 100))
+		c.Fail(rp+"/"+short+"/combiner-gets-member-block", c.P.InstrPos(call), "third argument of the combiner is not this member's parsed block: "+trunc(ir.Desc(member), 100))
 	} else {
-		c.OK("C31b/"+short+"/combiner-gets-member-block", c.P.InstrPos(call), "parsedInput.GetBlock() of the member being parsed")
+		c.OK(rp+"/"+short+"/combiner-gets-member-block", c.P.InstrPos(call), "parsedInput.GetBlock() of the member being parsed")
 	}
 	for k, acc := range []string{"latest", "earliest"} {
 		// header phi of this accumulator
@@ -286,7 +290,7 @@ func (c *Ctx) batchAccumulators(fnName string, identity map[int][]int64) {
 				}
 			}
 		}
-		key := "C31b/" + short + "/" + acc
+		key := rp + "/" + short + "/" + acc
 		if ext == nil {
 			c.Fail(key+"/result-kept", c.P.InstrPos(call), "result #"+itoa(k)+" of the combiner is discarded")
 			continue
@@ -417,6 +421,9 @@ func (c *Ctx) batchAccumulators(fnName string, identity map[int][]int64) {
 		if !seedLive {
 			c.OK(skey, c.P.InstrPos(call), "the combiner sees the accumulator only after the first member assigned it (first iteration peeled by the index==0 branch)")
 			continue
+		}
+		if identity == nil {
+			continue // the caller (C32e) leaves the neutral-element question to C31b/C31c
 		}
 		sc, isC := seed.(*ssa.Const)
 		if !isC || !isIntConst(sc) {
@@ -624,6 +631,87 @@ func init() {
 						c.OK(key, c.P.InstrPos(st), "api."+fld+" + apiCont.api."+fld)
 					} else {
 						c.Fail(key, c.P.InstrPos(st), "batch "+fld+" is not accumulated-so-far + this member's: "+trunc(dx, 90)+" + "+trunc(dy, 90))
+					}
+				}
+				if n == 0 {
+					// the construction may live in a helper that ParseMsg calls per member: hold the helper to the same rule
+					key := "C31a/" + pn + ".ParseMsg/" + fld + "=running-sum"
+					var helper *ssa.Function
+					var hcall *ssa.CallCommon
+					var hat ssa.Instruction
+					ir.EachInstr(fn, func(in ssa.Instruction) {
+						call := ir.CallOf(in)
+						if call == nil {
+							return
+						}
+						callee := call.StaticCallee()
+						if callee == nil || callee.Blocks == nil || !inProd(callee) {
+							return
+						}
+						for _, s := range c.FieldStores("x/spec/types.Api." + fld) {
+							if s.Fn == callee {
+								helper, hcall, hat = callee, call, in
+							}
+						}
+					})
+					if helper != nil {
+						n = 1
+						ok, why := true, ""
+						var sumStore *ssa.Store
+						for _, s := range c.FieldStores("x/spec/types.Api." + fld) {
+							if s.Fn == helper {
+								sumStore = s.Instr.(*ssa.Store)
+							}
+						}
+						b, isBin := sumStore.Val.(*ssa.BinOp)
+						accArg, memArg := -1, -1
+						if !isBin || b.Op != token.ADD {
+							ok, why = false, "helper "+ir.FuncName(helper)+" sets "+fld+" to "+trunc(ir.Desc(sumStore.Val), 100)+", not a sum"
+						} else {
+							var idx []int
+							for _, side := range []ssa.Value{b.X, b.Y} {
+								d := ir.Desc(side)
+								for i := range helper.Params {
+									if d == "param#"+itoa(i)+"."+fld {
+										idx = append(idx, i)
+									}
+								}
+							}
+							if len(idx) != 2 || idx[0] == idx[1] {
+								ok, why = false, "helper "+ir.FuncName(helper)+" does not add the "+fld+" of two different api parameters: "+trunc(ir.Desc(sumStore.Val), 120)
+							} else {
+								for _, i := range idx {
+									d := ir.Desc(hcall.Args[i])
+									if strings.HasPrefix(d, "phi{") {
+										accArg = i
+									} else if strings.Contains(d, "getSupportedApi") && strings.HasSuffix(d, ".api") {
+										memArg = i
+									}
+								}
+								if accArg < 0 || memArg < 0 {
+									ok, why = false, "the helper is not called with the accumulated api and this member's api"
+								}
+							}
+						}
+						if ok {
+							// every return of the helper is the freshly built api carrying the sum
+							var built *ssa.Alloc
+							if fa, isFA := sumStore.Addr.(*ssa.FieldAddr); isFA {
+								built = allocOf(fa.X)
+							}
+							for _, r := range c.AllReturns(helper) {
+								for _, leaf := range phiLeaves(RetVal(r.Instr.(*ssa.Return), 0)) {
+									if allocOf(leaf) == nil || allocOf(leaf) != built {
+										ok, why = false, "a path of "+ir.FuncName(helper)+" returns "+trunc(ir.Desc(leaf), 80)+" instead of the newly summed api: that member's "+fld+" is not added"
+									}
+								}
+							}
+						}
+						if ok {
+							c.OK(key, c.P.InstrPos(hat), "via "+ir.FuncName(helper)+": accumulated."+fld+" + member."+fld+" on every return")
+						} else {
+							c.Fail(key, c.P.InstrPos(hat), why)
+						}
 					}
 				}
 				if n != 1 {
